@@ -23,9 +23,9 @@ EXTENDS Scopes, Export
 \* TLC orders record fields by first occurrence in the root module: tags first
 FieldOrder == [kind |-> 0, k |-> 0, op |-> 0, mode |-> 0, ok |-> 0, tag |-> 0, id |-> 0, ns |-> 0, s |-> 0,
                key |-> 0, name |-> 0, scope |-> 0, table |-> 0, req |-> 0, here |-> 0, chain |-> 0,
-               sub |-> 0, props |-> 0, items |-> 0, val |-> 0, v |-> 0, type |-> 0]
+               def |-> 0, sub |-> 0, props |-> 0, items |-> 0, val |-> 0, v |-> 0, type |-> 0]
 
-CONSTANTS Shapes,     \* subset of {"flat","nest1","nest1l","nest2","sib","bare","bare2","barel"}
+CONSTANTS Shapes,     \* subset of {"flat","nest1","nest1l","nest2","sib","bare","bare2","barel","smap"}
           Wrap1,      \* wrappers of the first placement
           Wrap2,      \* wrappers of the second placement ({} = at most one placement)
           PairShapes, \* shapes that get a second placement
@@ -46,8 +46,11 @@ MTags == <<"m1", "m2">>
 XT1 == Scope("x1", "X", << Obj("X", "x1X", <<Marker("x1X"), Prop("nx", FALSE, Ref("e1", "", "B"))>>),
                            Obj("B", "x1B", <<Marker("x1B"), Prop("bk", FALSE, ListOf(Ref("e2", "", "X")))>>) >>)
 XT2 == Scope("x2", "X", << Obj("X", "x2X", <<Marker("x2X")>>) >>)
-ExtMC == [T1 |-> XT1, T2 |-> XT2]
-Canon == [nsa |-> "T1", nsb |-> "T2"]
+\* a table of struct-mapped objects whose IDs collide with the IDs of the "smap" trees; both declare a default
+XT3 == Scope("x3", "Settings", << SObj("Settings", "x3S", "Leaf", <<PropD("mode", Leaf, "fast"), Prop("tag", FALSE, Leaf)>>),
+                                  SObj("Engine", "x3E", "Leaf", <<PropD("mode", Leaf, "slow"), Prop("tag", FALSE, Leaf)>>) >>)
+ExtMC == [T1 |-> XT1, T2 |-> XT2, T3 |-> XT3]
+Canon == [nsa |-> "T1", nsb |-> "T2", nsc |-> "T3"]
 ExtTargets == {<<"nsa", "X">>, <<"nsa", "B">>, <<"nsb", "X">>}
 
 \* ------------------------------------------------------------------ trees
@@ -77,8 +80,25 @@ S2(P) == Scope("s2", "A", << O(P, "s2", "A", "cA", Ob("o2", "C")), O(P, "s2", "C
 S1(P, inner) == Scope("s1", "B", << O(P, "s1", "B", "bB", Ob("o1", "A") \o inner), O(P, "s1", "A", "bA", <<>>) >>)
 Top(P, fa, fb, more) == Scope("top", "A", << O(P, "top", "A", "aA", Ob("o0", "B") \o fa), O(P, "top", "B", "aB", fb) >> \o more)
 
+\* struct-mapped: Root{cfg: Settings by value, alt: Engine by value, name}; Settings{engine: <target> by value,
+\* note}; Engine{mode = "local", tag}.  The placement says how cfg is reached (reference / object used
+\* inline) and what engine refers to: the local Engine, or - in namespace nsc - an object whose ID is that of
+\* the local Settings or Engine.  Inputs that leave out whole sub-objects get them from the declared defaults.
+SMap(P) ==
+    LET eng == Ref("r1", P[1].ns, P[1].id)
+        settings(tag) == SObj("Settings", tag, "Mid", <<Prop("engine", FALSE, eng), Prop("note", FALSE, Leaf)>>)
+        cfg == IF P[1].w = "direct" THEN Ref("rc", "", "Settings")
+               ELSE SObj("Settings", "aSi", "Mid", <<Prop("engine", FALSE, Ref("r2", P[1].ns, P[1].id)),
+                                                     Prop("note", FALSE, Leaf)>>)
+    IN Scope("top", "Root",
+             << SObj("Root", "aR", "Root", <<Prop("cfg", FALSE, cfg), Prop("alt", FALSE, Ref("ra", "", "Engine")),
+                                            Prop("name", FALSE, Leaf)>>),
+                settings("aS"),
+                SObj("Engine", "aE", "Leaf", <<PropD("mode", Leaf, "local"), Prop("tag", FALSE, Leaf)>>) >>)
+
 TreeOf(shape, P) ==
-    CASE shape = "flat"   -> Top(P, <<>>, <<>>, <<>>)
+    CASE shape = "smap"   -> SMap(P)
+      [] shape = "flat"   -> Top(P, <<>>, <<>>, <<>>)
       [] shape = "nest1"  -> Top(P, <<Prop("s1", FALSE, S1(P, <<>>))>>, <<>>, <<>>)
       [] shape = "nest1l" -> Top(P, <<Prop("s1", FALSE, ListOf(S1(P, <<>>)))>>, <<>>, <<>>)
       [] shape = "nest2"  -> Top(P, <<Prop("s1", FALSE, S1(P, <<Prop("s2", FALSE, S2(P))>>))>>, <<>>, <<>>)
@@ -104,6 +124,10 @@ IDsOf(sc, shape) ==
 Targets(sc, shape) == {<<"", id>> : id \in IDsOf(sc, shape)} \cup ExtTargets
 Bare == {"bare", "bare2", "barel"}
 Places(shape, W, Q) ==
+    IF shape = "smap"
+    THEN {[hs |-> "top", ho |-> "Settings", w |-> w, ns |-> tg[1], id |-> tg[2], req |-> FALSE] :
+             w \in {"direct", "inobj"}, tg \in {<<"", "Engine">>, <<"nsc", "Settings">>, <<"nsc", "Engine">>}}
+    ELSE
     IF shape \in Bare   \* the marker-less objects are fixed; two placements next to them are enough
     THEN {[hs |-> "top", ho |-> "B", w |-> "direct", ns |-> tg[1], id |-> tg[2], req |-> FALSE] :
              tg \in {<<"", "A">>, <<"nsa", "X">>}}
@@ -128,7 +152,7 @@ HistBound == Len(hist) <= 40
 \* ------------------------------------------------------------------ model properties
 WellFormedInv == hist = <<>> => WellFormed(tree, ext)
 Canonical == Uniform /\ \A n \in Namespaces : NsTab[n] = Canon[n]
-InlineSame == Canonical => InlineSameAt(InlineK, RawD)
+InlineSame == (Canonical /\ MapBased) => InlineSameAt(InlineK, RawD)
 Untouched == OtherNamespacesUntouched
 
 \* ------------------------------------------------------------------ export
@@ -143,8 +167,9 @@ Export ==
     /\ Emit([tid |-> params, hist |-> hist, link |-> link, vr |-> VRs(link), next |-> NextOf])
     /\ hist = <<>> => Emit([tid |-> params, tree |-> tree, ext |-> ext])
     /\ Canonical =>
-         LET rt == RawTable IN
+         LET rt == IF MapBased THEN RawTable ELSE {} IN
          /\ Emit([tid |-> params, nstab |-> NsTab, k |-> InlineK, nraws |-> Cardinality(rt),
+                  clink |-> link, rb |-> RebuiltLink, rbvr |-> VR(tree, RebuiltLink),
                   inl |-> IF EmitInl THEN <<Inline(tree, tree, InlineK, RLex(ext, NsTab))>> ELSE <<>>])
          /\ \A x \in rt : Emit([tid |-> params, raw |-> x.raw, exp |-> x.exp])
 =============================================================================
